@@ -66,3 +66,11 @@ pub fn key_is_back() -> bool {
 }
 pub type PM = Poisonable<M>;
 pub type PR = Poisonable<R>;
+
+/// runs a closure when dropped (used to call APIs from a destructor that runs during unwinding)
+pub struct OnDrop<F: FnMut()>(pub F);
+impl<F: FnMut()> Drop for OnDrop<F> {
+	fn drop(&mut self) {
+		(self.0)()
+	}
+}
